@@ -45,7 +45,7 @@ def case_strategy(draw, tier="quick"):
         if free:
             choices += ["create", "create", "open", "bad_open"]
         if open_slots:
-            choices += ["close", "abort", "use", "use", "use", "fail", "fail", "pending_close"]
+            choices += ["close", "abort", "use", "use", "use", "fail", "fail", "pending_close", "pending_abort"]
         choices += ["probe", "probe", "quiesce"]
         ev = draw(st.sampled_from(choices))
         if ev == "create":
@@ -81,18 +81,18 @@ def case_strategy(draw, tier="quick"):
                 continue
             o = open_slots.pop(s)
             steps.append({"ev": ev, "slot": s})
-        elif ev == "pending_close":
+        elif ev in ("pending_close", "pending_abort"):
             s = draw(st.sampled_from(sorted(open_slots)))
             if open_slots[s]["ro"]:
                 continue
             open_slots.pop(s)
-            steps.append({"ev": "pending_close", "slot": s, "n": draw(st.integers(1, 3)), "kind": draw(st.sampled_from(["iput", "iget", "bput"]))})
+            steps.append({"ev": ev, "slot": s, "n": draw(st.integers(1, 3)), "kind": draw(st.sampled_from(["iput", "iget", "bput", "iget_varm"]))})
         elif ev == "use":
             s = draw(st.sampled_from(sorted(open_slots)))
             steps.append({"ev": "use", "slot": s, "what": draw(st.sampled_from(["put", "get", "att", "redef", "nb", "indep", "varn", "flex"])), "seed": draw(st.integers(0, 999))})
         elif ev == "fail":
             s = draw(st.sampled_from(sorted(open_slots)))
-            steps.append({"ev": "fail", "slot": s, "what": draw(st.sampled_from(["bad_varid", "def_in_data", "edge", "bad_att", "echar", "bad_reqid", "ebaddim", "nameinuse", "iomismatch"]))})
+            steps.append({"ev": "fail", "slot": s, "what": draw(st.sampled_from(["bad_varid", "def_in_data", "edge", "bad_att", "echar", "bad_reqid", "ebaddim", "nameinuse", "iomismatch", "bput_insuff"]))})
         elif ev == "probe":
             kind = draw(st.sampled_from(["stale", "negative", "huge", "inrange_unused", "max"]))
             steps.append({"ev": "probe", "idkind": kind, "apis": draw(st.lists(st.sampled_from(PROBES), min_size=1, max_size=6, unique=True)), "n": draw(st.integers(0, 50))})
@@ -245,7 +245,7 @@ def build(case):
                 pass
             release(slot)
             check_others(None, "after %s of another file" % ev)
-        elif ev == "pending_close":
+        elif ev in ("pending_close", "pending_abort"):
             slot = stp["slot"]
             if slot not in slots or slots[slot]["ro"] or slots[slot].get("define"):
                 continue
@@ -255,16 +255,23 @@ def build(case):
             for j in range(stp["n"]):
                 for r in range(k):
                     b, q = p.newbuf(), p.newreq()
-                    if stp["kind"] == "iget":
+                    if stp["kind"] == "iget_varm":
+                        # a true varm request (imap with a gap): the library builds an MPI datatype for it
+                        p.s.op("buf", ranks=[r], b=b, size=12, fill=0xEE)
+                        n = p.s.op("data", ranks=[r], api="iget", form="varm", coll=0, mt="int", f=f, v=0, start=[0], count=[2], stride=[1], imap=[2], buf=b, req=q)
+                    elif stp["kind"] == "iget":
                         p.s.op("buf", ranks=[r], b=b, size=4, fill=0xEE)
                         n = p.s.op("data", ranks=[r], api="iget", form="var1", coll=0, mt="int", f=f, v=0, start=[j], buf=b, req=q)
                     else:
                         p.s.op("buf", ranks=[r], b=b, size=4, hex=struct.pack("i", 31337))
                         n = p.s.op("data", ranks=[r], api=stp["kind"], form="var1", coll=0, mt="int", f=f, v=0, start=[j], buf=b, req=q)
                     p.expect_rc(n, [r], 0, stp["kind"])
-            p.op("close", step=True, f=f, expect=M.E["EPENDING"], what="close with pending requests")
+            if ev == "pending_close":
+                p.op("close", step=True, f=f, expect=M.E["EPENDING"], what="close with pending requests")
+            else:
+                p.op("abort", step=True, f=f, expect=[0, M.E["EPENDING"]], what="abort with pending requests")
             release(slot)
-            labels.add("pending_close_" + stp["kind"])
+            labels.add(ev + "_" + stp["kind"])
             failed_since_quiesce = True
             check_others(None, "after close with pending requests")
         elif ev == "use":
@@ -364,6 +371,13 @@ def build(case):
                 p.op("redef", step=True, f=f)
                 p.op("def_var", step=True, f=f, name=hx("v"), xt=M.NC_INT, dims=[0], ndims=1, expect=E["ENAMEINUSE"])
                 p.op("enddef", step=True, f=f)
+            elif what == "bput_insuff":
+                if ro:
+                    continue
+                p.op("buffer_attach", f=f, size=4)
+                p.op("data", api="bput", form="varm", coll=0, mt="int", f=f, v=0, start=[0], count=[2], stride=[1], imap=[2], buf=b, req=p.newreq(),
+                     expect=E["EINSUFFBUF"], what="bput_varm larger than the attached buffer")
+                p.op("buffer_detach", f=f)
             elif what == "iomismatch":
                 p.op("data", step=True, api="get", form="var", coll=1, mt="flex", f=f, v=0, buf=b, buftype="int", bufcount=X + 2, expect=E["EIOMISMATCH"], what="flexible get with wrong bufcount")
             labels.add("fail_" + what)
